@@ -270,20 +270,31 @@ def make_games(ctx, harness, driver, n_games, n_bound_prefix):
         plies = r.randrange(1, 151)
         gl.append(f"pg gengame {r.getrandbits(48)} {plies} {MIN_MEN} {st}"); styles.append(st)
     out = run_chunks(harness, gl, JOBS, chunk=50)
-    games, rl = [], []
+    games, scan = [], []
     for l, o, st in zip(gl, out, styles):
         if not o.startswith("ok "):
             raise RuntimeError(f"game generator failed on `{l}`: {o}")
         mv, cfen = o[3:].split(" | ")
         g = Game(); g.seed = l; g.style = st; g.moves = mv.split(); g.cfen = cfen.strip()
+        games.append(g)
+        scan.append("pg replay - " + " ".join(g.moves))
+    # first pass: the specification replays every game and tells where e.p. captures and castling moves are played
+    rep0 = run_chunks(driver, scan, JOBS, chunk=50)
+    rl = []
+    for g, o in zip(games, rep0):
         n = len(g.moves)
         ks = set()
         if n >= 2: ks.add(r.randrange(1, n))              # the prefix position given to the filter
         g.want = [sorted(ks)[0]] if ks else []
         for _ in range(n_bound_prefix): ks.add(r.randrange(0, n + 1))
         ks.add(0)
+        if o.startswith("ok "):
+            st = dict(x.split("=") for x in o.split(" | ")[-1].split())
+            ep = [int(x) for x in st["epcapat"].split(",")] if st["epcapat"] != "-" else []
+            ca = [int(x) for x in st["castleat"].split(",")] if st["castleat"] != "-" else []
+            for i in r.sample(ep, min(2, len(ep))): ks.add(i)          # position with an e.p. right whose continuation uses it
+            for i in r.sample(ca, min(1, len(ca))): ks.add(i)          # position from which the side to move castles next
         g.fens = dict.fromkeys(sorted(ks))
-        games.append(g)
         rl.append("pg replay " + ",".join(map(str, sorted(ks))) + " " + " ".join(g.moves))
     rep = run_chunks(driver, rl, JOBS, chunk=50)
     tot = {"promo": 0, "castle": 0, "epcap": 0, "eprights": 0, "captures": 0}
@@ -297,7 +308,9 @@ def make_games(ctx, harness, driver, n_games, n_bound_prefix):
         for k, f in zip(sorted(g.fens), fens[:-1]): g.fens[k] = f
         g.fens[len(g.moves)] = fens[-1]
         g.stats = dict(x.split("=") for x in parts[-1].split())
-        for k in tot: tot[k] += int(g.stats[k])
+        for k in ("promo", "castle", "epcap", "eprights", "captures"): tot[k] += int(g.stats[k])
+        tot["pairs_before_ep_capture"] = tot.get("pairs_before_ep_capture", 0) + sum(1 for k in g.fens if g.stats["epcapat"] != "-" and str(k) in g.stats["epcapat"].split(","))
+        tot["pairs_before_castling"] = tot.get("pairs_before_castling", 0) + sum(1 for k in g.fens if g.stats["castleat"] != "-" and str(k) in g.stats["castleat"].split(","))
         if fens[-1] != g.cfen:
             ctx.violation(f"final position of a generated game differs between Position::makeMove/toFEN and the Lean specification: {g.cfen} vs {fens[-1]}",
                           {"kind": "position-vs-spec", "input": [g.seed, line], "impl": g.cfen, "model": fens[-1]}, no_input=True)
@@ -430,6 +443,7 @@ def run(ctx):
             "underpromotions": sum(1 for g in games for m in g.moves if len(m) == 5 and m[4] != "q"),
             "games_with_castling": sum(int(g.stats["castle"]) > 0 for g in games), "castlings": tot["castle"],
             "en_passant_captures": tot["epcap"], "positions_with_ep_right_along_games": tot["eprights"],
+            "api_pairs_starting_before_an_ep_capture": tot.get("pairs_before_ep_capture", 0), "api_pairs_starting_before_castling": tot.get("pairs_before_castling", 0),
             "finals_with_ep_square": sum(f.split()[3] != "-" for f in finals),
             "finals_castling_rights": {k: sum(1 for f in finals if f.split()[2] == k) for k in sorted(set(f.split()[2] for f in finals))},
             "finals_rights_kept_all": sum(f.split()[2] == "KQkq" for f in finals), "finals_rights_lost_all": sum(f.split()[2] == "-" for f in finals),
